@@ -198,6 +198,11 @@ const ITEM_POOL: &[&str] = &[
     "ab",
     "b",
     "b/c",
+    "b%2Fc",
+    "b%252Fc",
+    "%2F",
+    "%25",
+    "%",
     "c",
     "/b",
     "/b/c",
@@ -285,6 +290,8 @@ pub fn gen_seq(rng: &Rng, kind: &str, _tier: Tier) -> Seq {
         0 | 1 => (vec!["/a".into(), "/a/b".into()], vec!["b/c".into(), "c".into()]),
         2 => (vec!["/a".into(), "/a/".into()], vec!["/b".into(), "b".into()]),
         3 => (vec!["/a".into(), "/a/b".into(), "/a/b/c".into()], vec!["b/c".into(), "c".into(), "".into()]),
+        // Names that coincide if the id escaping is applied in the wrong order or not inverted.
+        4 => (vec!["/a".into()], vec!["b/c".into(), "b%2Fc".into(), "b%252Fc".into()]),
         _ => (vec![], vec![]),
     };
     let in_family = !agents.is_empty();
